@@ -4,8 +4,14 @@
    class and panic site with the real code on grammar-valid texts outside the supported
    subset and on token-level mutations.  Proved here: the constructors are total on the shapes
    the grammar can produce and panic exactly in the classes of finding F11; a text the
-   grammar rejects yields Err.  PARTIAL: the statement for all conforming token trees at once
-   is not proved. *)
+   grammar rejects yields Err; and at tree level (C14_front_total) for EVERY declaration list
+   meeting decl_ok -- any number of declarations, fields, fall-through groups -- Ast::new returns
+   Ok or panics at one of two sites: the enum value parser (0x-garbage or >= 2^31) and the
+   duplicate-name check of the constant index.  With C14_emitters_panic_site (every Ast) that
+   leaves three panic sites for generate on such a list, all in finding F11.
+   PARTIAL: trees outside decl_ok (a field or arm named like a primitive, a declarator in a
+   union arm: the remaining two F11 sites) and the text-to-tree step are covered by K1 only. *)
+From XdrProofs Require Import FrontTotal.
 From XdrModel Require Import Walk Check Grammar.
 From XdrProofs Require Import MoreProofs.
 Open Scope string_scope.
@@ -73,3 +79,27 @@ Example C14_F11_witnesses :
   struct_field_new (NStructDataField [NType I32; NType I32]) = EPanic "structure.rs:new" /\
   union_case_new ["1"] [NType I32; NType (Ident "xs"); NArrayVariable ""] = EPanic "union.rs:new".
 Proof. repeat split. Qed.
+
+(* ---- tree level, all declaration lists ---- *)
+Theorem C14_front_total :
+  forall ds, Forall decl_ok ds -> only_panics [E_ENUM; E_CONST] (ast_new (tree_of ds)).
+Proof. exact front_total. Qed.
+Print Assumptions C14_front_total.
+
+Theorem C14_front_ok :
+  forall ds items cs,
+  Forall decl_ok ds -> emapM item_of ds = EOk items -> const_index (items ++ [NEOF]) [] = EOk cs ->
+  exists A, ast_new (tree_of ds) = EOk A /\ constants A = cs.
+Proof. exact front_ok. Qed.
+Print Assumptions C14_front_ok.
+
+(* what only_panics says *)
+Theorem C14_only_panics_spec :
+  forall (sites : list string) (m : eres ast),
+  only_panics sites m <-> (exists A, m = EOk A) \/ (exists w, m = EPanic w /\ In w sites).
+Proof.
+  intros sites m. split.
+  - intros [x|w Hw]; [left; eauto|right; eauto].
+  - intros [[A ->]|[w [-> Hw]]]; constructor. exact Hw.
+Qed.
+Print Assumptions C14_only_panics_spec.
